@@ -152,7 +152,7 @@ package k8s
 //@         && ptsMinus2(newAdminPolicyConns.PassConns, pc.DeniedConns, pc.AllowedConns)
 
 //@ func (*PolicyConnections).CollectAllowedConnsFromNetpols
-//@   requires wfPC(pc) && wfPC(npConns) && sepPCPC(pc, npConns)
+//@   requires wfPC(pc) && npConns != nil && wfCS(npConns.AllowedConns) && sepPCCS(pc, npConns.AllowedConns)
 //@   modifies common.ConnectionSet.AllowAll { r | true }, common.ConnectionSet.AllowedProtocols { r | true }
 //@   modifies map[v1.Protocol]*common.PortSet { m | true }, common.PortSet.Ports { r | true }, map[string]bool { m | true }
 //@   ensures [C02] wf: wfPC(pc) && pc.AllowedConns == old(pc.AllowedConns) && pc.DeniedConns == old(pc.DeniedConns) && pc.PassConns == old(pc.PassConns)
@@ -942,7 +942,12 @@ package k8s
 //@     pts(pc.PassConns, q, n) == (exists k int :: {banp.Spec.Ingress[k]} 0 <= k && k < m && banp.Spec.Ingress[k].Action == "Pass" && banpIngFirst(banp, k, src, dst, q, n))
 //@ pred banpIngVerdicts(pc *PolicyConnections, banp *BaselineAdminNetworkPolicy, m int, src Peer, dst Peer) = banpIngVerdictA(pc, banp, m, src, dst) && banpIngVerdictD(pc, banp, m, src, dst) && banpIngVerdictP(pc, banp, m, src, dst)
 
+//@ fun banpIngAt(banp *BaselineAdminNetworkPolicy, src Peer, dst Peer, act string, q string, n int) bool =
+//@     exists k int :: {banp.Spec.Ingress[k]} 0 <= k && k < len(banp.Spec.Ingress) && banp.Spec.Ingress[k].Action == act && banpIngFirst(banp, k, src, dst, q, n)
 //@ func (*BaselineAdminNetworkPolicy).GetIngressPolicyConns
+//@   ensures [C02] at: res1 == nil ==> (forall q v1.Protocol, n int :: {iset(res0.AllowedConns.AllowedProtocols[q].Ports)[n]} {iset(res0.DeniedConns.AllowedProtocols[q].Ports)[n]} {iset(res0.PassConns.AllowedProtocols[q].Ports)[n]}
+//@         pts(res0.AllowedConns, q, n) == banpIngAt(banp, src, dst, "Allow", q, n) && pts(res0.DeniedConns, q, n) == banpIngAt(banp, src, dst, "Deny", q, n) && pts(res0.PassConns, q, n) == banpIngAt(banp, src, dst, "Pass", q, n))
+//@   hint ensures.at: inv.firstA, inv.firstD, inv.firstP
 //@   hide anpFieldsMatch, anpPortsPts
 //@   hint loop1.preserve.firstA: inv.firstA, inv.firstD, inv.firstP, inv.covered, call2.applied, call2.valid
 //@   hint loop1.preserve.firstD: inv.firstA, inv.firstD, inv.firstP, inv.covered, call2.applied, call2.valid
@@ -982,7 +987,12 @@ package k8s
 //@     pts(pc.PassConns, q, n) == (exists k int :: {banp.Spec.Egress[k]} 0 <= k && k < m && banp.Spec.Egress[k].Action == "Pass" && banpEgFirst(banp, k, dst, q, n))
 //@ pred banpEgVerdicts(pc *PolicyConnections, banp *BaselineAdminNetworkPolicy, m int, dst Peer) = banpEgVerdictA(pc, banp, m, dst) && banpEgVerdictD(pc, banp, m, dst) && banpEgVerdictP(pc, banp, m, dst)
 
+//@ fun banpEgAt(banp *BaselineAdminNetworkPolicy, dst Peer, act string, q string, n int) bool =
+//@     exists k int :: {banp.Spec.Egress[k]} 0 <= k && k < len(banp.Spec.Egress) && banp.Spec.Egress[k].Action == act && banpEgFirst(banp, k, dst, q, n)
 //@ func (*BaselineAdminNetworkPolicy).GetEgressPolicyConns
+//@   ensures [C02] at: res1 == nil ==> (forall q v1.Protocol, n int :: {iset(res0.AllowedConns.AllowedProtocols[q].Ports)[n]} {iset(res0.DeniedConns.AllowedProtocols[q].Ports)[n]} {iset(res0.PassConns.AllowedProtocols[q].Ports)[n]}
+//@         pts(res0.AllowedConns, q, n) == banpEgAt(banp, dst, "Allow", q, n) && pts(res0.DeniedConns, q, n) == banpEgAt(banp, dst, "Deny", q, n) && pts(res0.PassConns, q, n) == banpEgAt(banp, dst, "Pass", q, n))
+//@   hint ensures.at: inv.firstA, inv.firstD, inv.firstP
 //@   hide anpFieldsMatch, anpPortsPts
 //@   hint loop1.preserve.firstA: inv.firstA, inv.firstD, inv.firstP, inv.covered, call2.applied, call2.valid
 //@   hint loop1.preserve.firstD: inv.firstA, inv.firstD, inv.firstP, inv.covered, call2.applied, call2.valid
@@ -1006,3 +1016,21 @@ package k8s
 //@         (!pts(res.AllowedConns, q, n) && !pts(res.DeniedConns, q, n) && !pts(res.PassConns, q, n)) ==>
 //@         (forall j int :: {banp.Spec.Egress[j]} (0 <= j && j <= rangeindex) ==> !banpEgCap(banp, j, dst, q, n))
 
+
+// ---------------------------------------------------------------------------------------------
+// BANP subject and point-level verdicts; the "everything decided" shortcut (C02)
+// ---------------------------------------------------------------------------------------------
+
+//@ fun banpSelects(banp *BaselineAdminNetworkPolicy, p Peer, isIngress bool) bool = dyntype(p, *PodPeer) && (if isIngress then len(banp.Spec.Ingress) > 0 else len(banp.Spec.Egress) > 0)
+//@     && anpFieldsMatch(banp.Spec.Subject.Namespaces, banp.Spec.Subject.Pods, p)
+//@ func (*BaselineAdminNetworkPolicy).Selects
+//@   requires banp != nil && realPeer(p)
+//@   modifies *
+//@   ensures [C02] def: res1 == nil ==> res0 == banpSelects(banp, p, isIngress)
+
+// the shortcut taken when the ANPs alone decide every point: it may only be taken when Allow and Deny together cover everything
+//@ func (*PolicyConnections).DeterminesAllConns
+//@   requires wfPC(pc)
+//@   ensures [C02] all: res ==> (forall q v1.Protocol, n int :: {iset(pc.AllowedConns.AllowedProtocols[q].Ports)[n]} {iset(pc.DeniedConns.AllowedProtocols[q].Ports)[n]}
+//@         isPP(q, n) ==> (pts(pc.AllowedConns, q, n) || pts(pc.DeniedConns, q, n)))
+//@   ensures [C02] kept: allKept()
